@@ -38,7 +38,7 @@ TRUSTED = ["translator harness/cmd/genloop (go/ast subset of conn.processIO -> M
            "Model/Loop.v is hand-written from connection_unix.go, connection_linux.go, eventloop_unix.go, acceptor_unix.go, "
            "poller_epoll_default.go (Trigger/Polling task part); inbound/outbound buffers as FIFO lists (C09-C11), registry as a map (C14), "
            "task queues as sequential lists (C13; C03 for the wake-up protocol)",
-           "ghost markers (g sub/hand/del/fail/count/openreply/udpconn) are emitted by the model itself; their meaning is part of the specification"]
+           "ghost markers (g sub/hand/del/fail/eagain/rearm-read/rearm-write/pending/count/udpconn/staleudp/regcb) are emitted by the model itself; their meaning is part of the specification"]
 
 ASSUME = ["kernel: read/write/writev/accept/epoll/eventfd results are inputs of the model (any result sequence); the monitors in the model "
           "(desync kernel-contract-*) state the only constraints: read returns <= buffer size bytes, write accepts <= what was offered, "
